@@ -58,6 +58,15 @@ def run_fn(c) -> CaseResult:
     if frozen is not None:
         res.labels.append("one-operand-without-grad")
     ts = [t.clone().requires_grad_(i != frozen) for i, t in enumerate(bu.ts)]
+    if c.get("constraint", "default") != "default" and c["seedB"] % 2 == 0:
+        # eager mode in a long-lived process: the same op has been called before with the same geometry but another constraint
+        # (a compiled region is traced afresh; the eager call must not depend on that history either)
+        other = "to_output_scale" if c["constraint"] != "to_output_scale" else None
+        try:
+            pb.build(dict(c, constraint=other), c["seedA"]).u(*[t.clone() for t in bu.ts])
+            res.labels.append("eager-history:other-constraint")
+        except Exception:  # noqa: BLE001
+            pass
     try:
         y = bu.u(*ts)
     except Exception:  # noqa: BLE001  (unsupported combination in eager: C01's business)
